@@ -840,6 +840,7 @@ impl Run {
             for (t, frag, dst, src) in w.frags {
                 let mut d = codec::decode_fragment(&frag, true);
                 d["peer"] = json!(peer_check(&frag, true));
+                d["ext"] = crate::extract::items(&frag);
                 let o = d.as_object_mut().unwrap();
                 o.insert("t".into(), json!(t));
                 o.insert("bid".into(), json!(self.intern.id(&frag)));
